@@ -65,11 +65,12 @@ func DispatchOrder(r *core.Run, rel, fn, implRel string) {
 	impls := core.Implementers(ipk.Types, iface)
 	sort.Slice(impls, func(i, j int) bool { return impls[i].Obj().Name() < impls[j].Obj().Name() })
 	n := 0
+	inst := Instantiated(r, implRel)
 	for _, T := range impls {
 		pt := types.NewPointer(T)
-		roles := declaredRoles(r, implRel, T)
-		if len(roles) == 0 {
-			continue // embedded helper types (fieldDefaults, base*): never instantiated as a Field on their own
+		roles := DeclaredRoles(r, implRel, T)
+		if len(roles) == 0 || !inst[T.Obj().Name()] {
+			continue // embedded helper types (fieldDefaults, base*, leaf*, mutable*): never instantiated as a Field on their own
 		}
 		n++
 		first := ""
@@ -104,7 +105,7 @@ func DispatchOrder(r *core.Run, rel, fn, implRel string) {
 
 // declaredRoles: result interfaces of T's own AsX() methods whose body returns
 // (receiver, true).
-func declaredRoles(r *core.Run, rel string, T *types.Named) map[string]bool {
+func DeclaredRoles(r *core.Run, rel string, T *types.Named) map[string]bool {
 	out := map[string]bool{}
 	pk := r.P.Pkg(rel)
 	core.AllFuncDecls(pk, func(fd *ast.FuncDecl) {
@@ -122,5 +123,49 @@ func declaredRoles(r *core.Run, rel string, T *types.Named) map[string]bool {
 			out[core.TypeStr(pk.TypesInfo.TypeOf(fd.Type.Results.List[0].Type))] = true
 		}
 	})
+	return out
+}
+
+// Instantiated returns the named struct types of a package that are created by
+// a composite literal that is not itself a field value of an enclosing
+// composite literal (i.e. values that can exist on their own, as opposed to
+// embedded base structs).
+func Instantiated(r *core.Run, rel string) map[string]bool {
+	pk := r.P.Pkg(rel)
+	out := map[string]bool{}
+	if pk == nil {
+		return out
+	}
+	for _, f := range pk.Syntax {
+		var stack []ast.Node
+		ast.Inspect(f, func(n ast.Node) bool {
+			if n == nil {
+				stack = stack[:len(stack)-1]
+				return true
+			}
+			if cl, ok := n.(*ast.CompositeLit); ok {
+				nested := false
+				for i := len(stack) - 1; i >= 0; i-- {
+					if _, isLit := stack[i].(*ast.CompositeLit); isLit {
+						nested = true
+						break
+					}
+					if _, isFn := stack[i].(*ast.FuncLit); isFn {
+						break
+					}
+					if _, isStmt := stack[i].(ast.Stmt); isStmt {
+						break
+					}
+				}
+				if !nested {
+					if nt := core.NamedOf(pk.TypesInfo.TypeOf(cl)); nt != nil {
+						out[nt.Obj().Name()] = true
+					}
+				}
+			}
+			stack = append(stack, n)
+			return true
+		})
+	}
 	return out
 }
